@@ -1391,6 +1391,11 @@ class LangServer:
                 if ast_old is not None:
                     for key in ast_old.global_dict:
                         self._remove_unit(key, filepath)
+                    # The files it included stand on their own again
+                    for inc in ast_old.include_statements:
+                        inc_ast = inc.file.ast if inc.file is not None else None
+                        if inc_ast is not None and inc_ast.inc_scope is not None:
+                            inc_ast.none_scope = inc_ast.inc_scope
                 # Other files must not stay linked to the removed objects
                 self.link_version = (self.link_version + 1) % 1000
                 for _, tmp_file in self.workspace.items():
